@@ -360,6 +360,10 @@ def runs_from_edges(edges, nwit, chunk=150, prefix="e"):
 
 
 def write_runs(path, params, runs):
+    # run ids name origins, log ids and counters: two runs with one id share them (and judge each other's effects when they overlap in time)
+    ids = [r.get("id") for r in runs if isinstance(r, dict) and "id" in r]
+    if len(set(ids)) != len(ids):
+        raise Inconclusive("harness error: duplicate run ids in %s: %s" % (os.path.basename(path), sorted({i for i in ids if ids.count(i) > 1})[:5]))
     with open(path, "w") as f:
         f.write(json.dumps({"params": params}) + "\n")
         for r in runs:
